@@ -49,6 +49,8 @@ type farm struct {
 	last map[int]string // last request of a target as it arrived: path ? sorted query
 	// resetFirst: the first request to the target is answered with 200, a few lines, and a TCP reset
 	resetFirst map[int]bool
+	// collectPer > 0: every value of the request's collect[] param adds this many (dropped) samples to the answer
+	collectPer int
 }
 
 func newFarm() *farm {
@@ -61,6 +63,7 @@ func newFarm() *farm {
 		n, d, down := f.size[id], f.drop[id], f.down[id]
 		reset := f.resetFirst[id]
 		delete(f.resetFirst, id)
+		per := f.collectPer
 		f.mu.Unlock()
 		if reset {
 			if hj, ok := w.(http.Hijacker); ok {
@@ -90,6 +93,11 @@ func newFarm() *farm {
 		}
 		for i := 0; i < d; i++ {
 			fmt.Fprintf(&sb, "dropme_series{t=\"%d\",i=\"%d\"} 1\n", id, i)
+		}
+		for _, c := range r.URL.Query()["collect[]"] {
+			for i := 0; i < per; i++ {
+				fmt.Fprintf(&sb, "dropme_collector_%s{t=\"%d\",i=\"%d\"} 1\n", c, id, i)
+			}
 		}
 		io.WriteString(w, sb.String())
 	}))
@@ -316,6 +324,7 @@ type Spec struct {
 	Interval    time.Duration
 	Down        []int  // targets that answer 503 from the start
 	FileMode    bool   // the sidecars read the configuration from their own file (--config.file, the default of the binary) instead of being pushed it
+	Collect     int    // > 0: the job has a collect[] param with two values, each adding this many samples to every target's answer
 	InitTimeout string // --sd.init-timeout of the coordinator (default 20s)
 	ResetFirst  []int  // targets whose first response breaks off with a TCP reset
 	Rich        bool   // a job with params (multi-valued), a non-canonical path and relabeling that rewrites path and labels
@@ -406,7 +415,11 @@ func (l *Loop) writeConfig() error {
 		}
 		return os.WriteFile(filepath.Join(l.dir, "prometheus.yml"), []byte(sb.String()), 0644)
 	}
-	sb.WriteString("global:\n  scrape_interval: 15s\n  scrape_timeout: 10s\nscrape_configs:\n- job_name: job\n  metric_relabel_configs:\n  - source_labels: [__name__]\n    regex: dropme.*\n    action: drop\n  static_configs:\n")
+	params := ""
+	if l.Spec.Collect > 0 {
+		params = "  params:\n    'collect[]': [cpu, mem]\n"
+	}
+	sb.WriteString("global:\n  scrape_interval: 15s\n  scrape_timeout: 10s\nscrape_configs:\n- job_name: job\n" + params + "  metric_relabel_configs:\n  - source_labels: [__name__]\n    regex: dropme.*\n    action: drop\n  static_configs:\n")
 	var ids []int
 	for id := range l.targets {
 		ids = append(ids, id)
@@ -515,6 +528,7 @@ func Start(spec Spec, dir, bin string) (*Loop, error) {
 	for _, id := range spec.ResetFirst {
 		l.farm.resetFirst[id] = true
 	}
+	l.farm.collectPer = spec.Collect
 	if spec.FileMode {
 		if err := l.writeConfig(); err != nil {
 			return nil, err
@@ -707,7 +721,7 @@ func (l *Loop) IsDown(id int) bool {
 func (l *Loop) TrueTotal(id int) int64 {
 	l.farm.mu.Lock()
 	defer l.farm.mu.Unlock()
-	return int64(l.farm.size[id] + l.farm.drop[id])
+	return int64(l.farm.size[id] + l.farm.drop[id] + 2*l.farm.collectPer)
 }
 
 // RestartCoordinator kills the coordinator and starts it again.
